@@ -169,6 +169,46 @@ func genAtomicConsts() error {
 		}
 		fmt.Fprintf(&sb, "Definition %s : list N := [%s].\n", t.coq, strings.Join(items, "; "))
 	}
+	// processTx of the multiplexer: order of routing, authentication, size gas, minimum gas price,
+	// handler, post-execution hook (21 resolveAppForMethod, 22 AuthenticateTx, 1 UseGas,
+	// 23 Fee.GasPrice(), 24 ExecuteTx, 25 PostExecuteTx)
+	{
+		f, err := parser.ParseFile(token.NewFileSet(), filepath.Join(repo, "go/consensus/cometbft/abci/transaction.go"), nil, 0)
+		if err != nil {
+			return err
+		}
+		var steps []string
+		for _, d := range f.Decls {
+			fd, ok := d.(*ast.FuncDecl)
+			if !ok || fd.Name.Name != "processTx" {
+				continue
+			}
+			ast.Inspect(fd.Body, func(n ast.Node) bool {
+				if c, ok := n.(*ast.CallExpr); ok {
+					_, name := selName(c.Fun)
+					switch name {
+					case "resolveAppForMethod":
+						steps = append(steps, "21")
+					case "AuthenticateTx":
+						steps = append(steps, "22")
+					case "UseGas":
+						steps = append(steps, "1")
+					case "GasPrice":
+						steps = append(steps, "23")
+					case "ExecuteTx":
+						steps = append(steps, "24")
+					case "PostExecuteTx":
+						steps = append(steps, "25")
+					}
+				}
+				return true
+			})
+		}
+		if len(steps) == 0 {
+			return fmt.Errorf("abci/transaction.go: processTx not found")
+		}
+		fmt.Fprintf(&sb, "Definition process_tx_steps : list N := [%s].\n", strings.Join(steps, "; "))
+	}
 	ms, err := txMethods()
 	if err != nil {
 		return err
